@@ -193,6 +193,14 @@ func (ex *Exec) harnessPrim(st *State, fn *ssa.Function, args []Value, in *ssa.C
 		setRes(st, in, Or(Not(args[0].(*Term)), args[1].(*Term)))
 	case "vIte":
 		setRes(st, in, Ite(args[0].(*Term), args[1].(*Term), args[2].(*Term)))
+	case "vUnsafeClass":
+		st.unsafeClass = int(args[0].(*Term).Val)
+	case "vOutUnsafe":
+		if st.outUnsafe == nil {
+			setRes(st, in, False)
+		} else {
+			setRes(st, in, st.outUnsafe)
+		}
 	case "vBencode":
 		iv := args[0].(IfaceV)
 		v, ok := ex.load(st, iv.V.(PtrV), pos)
@@ -304,6 +312,26 @@ func stBound(st *State, in *ssa.Call) bool {
 	}
 	_, ok := st.top().env[in]
 	return ok
+}
+
+// cleanString: a fresh bounded string whose content is not tracked and whose unsafe predicate is u;
+// when u is false its bytes are additionally constrained not to be of the class (so that copies
+// of its bytes stay clean).
+func (ex *Exec) cleanString(st *State, prefix string, u *Term) StringV {
+	ex.fresh++
+	nm := fmt.Sprintf("%s!%d", prefix, ex.fresh)
+	n := ex.namedVar(nm+".len", BV(64))
+	const mx = 6
+	st.pc = append(st.pc, Ule(n, Const(64, mx)))
+	arr := AVar(nm, 8)
+	if u.IsFalse() {
+		for i := 0; i < mx; i++ {
+			for _, c := range unsafeChars(st.unsafeClass) {
+				st.pc = append(st.pc, Not(Eq(Select(arr, Const(64, uint64(i))), Const(8, uint64(c)))))
+			}
+		}
+	}
+	return StringV{Sym: true, Arr: arr, Len: n, Max: mx, U: u}
 }
 
 func isLimited(o *Obj) bool {
@@ -915,6 +943,119 @@ func init() {
 			return true
 		},
 		"runtime.SetFinalizer": nop,
+		"fmt.Fprintf": func(ex *Exec, st *State, args []Value, in *ssa.Call, pos token.Pos) bool {
+			// what matters of formatted output is which attacker-controlled strings reach it unescaped
+			u := st.outUnsafe
+			if u == nil {
+				u = False
+			}
+			for _, a := range args[2:] {
+				u = Or(u, ex.taintOf(st, a, 0))
+			}
+			st.outUnsafe = u
+			st.effects = append(st.effects, "write")
+			setRes(st, in, TupleV{ex.freshVar("fprintf.n", BV(64)), nilErr})
+			return true
+		},
+		"fmt.Sprintf": func(ex *Exec, st *State, args []Value, in *ssa.Call, pos token.Pos) bool {
+			var u *Term = False
+			for _, a := range args[1:] {
+				u = Or(u, ex.taintOf(st, a, 0))
+			}
+			ex.fresh++
+			nm := fmt.Sprintf("sprintf!%d", ex.fresh)
+			n := ex.namedVar(nm+".len", BV(64))
+			st.pc = append(st.pc, Ule(n, Const(64, 8)))
+			setRes(st, in, StringV{Sym: true, Arr: AVar(nm, 8), Len: n, Max: 8, U: u})
+			return true
+		},
+		"html.EscapeString": func(ex *Exec, st *State, args []Value, in *ssa.Call, pos token.Pos) bool {
+			s := args[0].(StringV)
+			var u *Term = False // no < > " ' survives escaping
+			if st.unsafeClass == 1 {
+				u = ex.unsafeTerm(st, s) // line breaks do
+			}
+			setRes(st, in, ex.cleanString(st, "esc", u))
+			return true
+		},
+		"net/url.PathEscape": func(ex *Exec, st *State, args []Value, in *ssa.Call, pos token.Pos) bool {
+			setRes(st, in, ex.cleanString(st, "pathesc", False)) // percent-encodes quotes, angle brackets and line breaks
+			return true
+		},
+		"strings.Replace": func(ex *Exec, st *State, args []Value, in *ssa.Call, pos token.Pos) bool {
+			s := args[0].(StringV)
+			if !s.Sym {
+				o, n := args[1].(StringV), args[2].(StringV)
+				if !o.Sym && !n.Sym && args[3].(*Term).IsConst() {
+					setRes(st, in, StringV{S: strings.Replace(s.S, o.S, n.S, int(int64(args[3].(*Term).Val)))})
+					return true
+				}
+			}
+			// replacing commas etc.: the result may carry whatever unsafe characters the argument had
+			// (sound as long as the replaced text is not of the unsafe class)
+			u := ex.unsafeTerm(st, s)
+			if o := args[1].(StringV); !o.Sym {
+				for i := 0; i < len(o.S); i++ {
+					for _, c := range unsafeChars(st.unsafeClass) {
+						if o.S[i] == c {
+							u = False // the unsafe characters themselves are what is replaced
+						}
+					}
+				}
+			}
+			setRes(st, in, ex.cleanString(st, "repl", u))
+			return true
+		},
+		"strings.NewReplacer": func(ex *Exec, st *State, args []Value, in *ssa.Call, pos token.Pos) bool {
+			sl := args[0].(SliceV)
+			var cells []Value
+			if sl.Obj != 0 {
+				cells = st.heap[sl.Obj].Val.(CellsV).C
+			}
+			setRes(st, in, PtrV{Obj: ex.newObj(st, CellsV{append([]Value(nil), cells...)})})
+			return true
+		},
+		"(*strings.Replacer).Replace": func(ex *Exec, st *State, args []Value, in *ssa.Call, pos token.Pos) bool {
+			pairs := st.heap[args[0].(PtrV).Obj].Val.(CellsV).C
+			s := args[1].(StringV)
+			// the result carries an unsafe character of the argument unless every character of the class
+			// is replaced by text without one
+			covered := true
+			for _, c := range unsafeChars(st.unsafeClass) {
+				ok := false
+				for i := 0; i+1 < len(pairs); i += 2 {
+					o, n := pairs[i].(StringV), pairs[i+1].(StringV)
+					if !o.Sym && !n.Sym && o.S == string([]byte{c}) && ex.unsafeTerm(st, n).IsFalse() {
+						ok = true
+					}
+				}
+				if !ok {
+					covered = false
+				}
+			}
+			var u *Term = False
+			if !covered {
+				u = ex.unsafeTerm(st, s)
+			}
+			setRes(st, in, ex.cleanString(st, "replacer", u))
+			return true
+		},
+		"strings.HasPrefix": func(ex *Exec, st *State, args []Value, in *ssa.Call, pos token.Pos) bool {
+			s, p := args[0].(StringV), args[1].(StringV)
+			if !s.Sym && !p.Sym {
+				setRes(st, in, BoolC(strings.HasPrefix(s.S, p.S)))
+				return true
+			}
+			if p.Sym {
+				panic("strings.HasPrefix with a symbolic prefix")
+			}
+			c := Ule(Const(64, uint64(len(p.S))), s.Len)
+			for i := 0; i < len(p.S); i++ {
+				c = And(c, Eq(Select(s.Arr, Const(64, uint64(i))), Const(8, uint64(p.S[i]))))
+			}
+			setRes(st, in, c)
+			return true
+		},
 		"strings.Join": func(ex *Exec, st *State, args []Value, in *ssa.Call, pos token.Pos) bool {
 			sl := args[0].(SliceV)
 			sep := args[1].(StringV)
@@ -924,12 +1065,23 @@ func init() {
 			var parts []string
 			if sl.Obj != 0 {
 				c := st.heap[sl.Obj].Val.(CellsV).C
+				anySym := false
 				for i := sl.Off.Val; i < sl.Off.Val+sl.Len.Val; i++ {
-					s := c[i].(StringV)
-					if s.Sym {
-						panic("strings.Join of symbolic strings")
+					if c[i].(StringV).Sym {
+						anySym = true
 					}
-					parts = append(parts, s.S)
+				}
+				if anySym {
+					// content not tracked: the joined string may carry what its parts carry
+					var u *Term = ex.unsafeTerm(st, sep)
+					for i := sl.Off.Val; i < sl.Off.Val+sl.Len.Val; i++ {
+						u = Or(u, ex.unsafeTerm(st, c[i].(StringV)))
+					}
+					setRes(st, in, ex.cleanString(st, "join", u))
+					return true
+				}
+				for i := sl.Off.Val; i < sl.Off.Val+sl.Len.Val; i++ {
+					parts = append(parts, c[i].(StringV).S)
 				}
 			}
 			setRes(st, in, StringV{S: strings.Join(parts, sep.S)})
